@@ -22,7 +22,7 @@ RULE = (
     "on NaN-free (nanarg*: not-all-NaN) groups only. Non-trivial = >=2 blocks along a reduced axis and (a group "
     "spanning >=2 blocks, or a group absent from a block, or a block whose labels are all missing)."
 )
-BUDGET = {"quick": 110, "thorough": 2000}
+BUDGET = {"quick": 300, "thorough": 4000}
 ASSUMPTIONS = [
     "eager result is the reference (its own agreement with NumPy is C01's business)",
     "dyadic value alphabets make every bracketing of partial sums exact",
@@ -51,7 +51,7 @@ def runs_are_sequential(vals) -> bool:
 
 
 @st.composite
-def reduce_cases(draw, tier="quick", funcs=FUNCS, nplans=3, allow_blockwise=True, max_n=24):
+def reduce_cases(draw, tier="quick", funcs=FUNCS, nplans=3, allow_blockwise=True, max_n=24, engines=None, label_styles=None):
     func = draw(st.sampled_from(funcs))
     if func in ("any", "all"):
         dt = "|b1"
@@ -67,7 +67,7 @@ def reduce_cases(draw, tier="quick", funcs=FUNCS, nplans=3, allow_blockwise=True
     batch = draw(st.sampled_from([[], [], [2], [3], [1]]))
     nb = int(np.prod(batch)) if batch else 1
     vals = gen.draw_values(draw, n * nb, dt, func)
-    lab = gen.draw_labels(draw, n)
+    lab = gen.draw_labels(draw, n, styles=label_styles)
     lab["spec"]["sh"] = by_shape
     shape = batch + by_shape
     case = {"arr": {"dt": dt, "sh": shape, "v": vals}, "by": lab["spec"], "func": func}
@@ -101,7 +101,7 @@ def reduce_cases(draw, tier="quick", funcs=FUNCS, nplans=3, allow_blockwise=True
             case["fill_value"] = draw(st.sampled_from(["nan", 0]))
             if func in ARG_FUNCS:
                 case["fill_value"] = draw(st.sampled_from([0, -1]))
-    case["engine"] = draw(st.sampled_from(["numpy", "numpy", "flox", "numbagg", None, None]))
+    case["engine"] = draw(st.sampled_from(engines or ["numpy", "numpy", "flox", "numbagg", None, None]))
 
     # chunking of every axis
     chunks = [gen.draw_chunks(draw, s, max_blocks=8) for s in shape]
